@@ -22,8 +22,11 @@ for sid in ids:
         assert r.returncode == 0, r.stderr
         env = dict(os.environ, VERIF_REPO=wt, VERIF_REPLAY_DIR=f"/tmp/da_seeded_rp_{sid}")
         cmd = ["/venv/bin/python", os.path.join(HERE, "run_check.py"), meta["property"], "--tier", "quick", "--no-evidence"]
+        need = meta.get("detection", {}).get("runs_for_reliable_detection")
         if runs:
             cmd += ["--runs", runs]
+        elif need:
+            cmd += ["--runs", str(need)]  # a change that the quick tier's default batch only hits now and then
         t0 = time.monotonic()
         r = subprocess.run(cmd, env=env, capture_output=True, text=True)
         sigs = [l.strip() for l in r.stdout.splitlines() if l.strip().startswith("signature:")]
